@@ -177,6 +177,9 @@ GenNext ==
     \/ (\E t \in BOOLEAN : IoFailAppend(t))
     \/ (LET n == NextToEnact IN n.r # 0 /\ IoFailEnact(RandomElement(SUBSET DOMAIN logs[n.f].recs[n.r].w)))
     \/ IoFailOther \/ DropErr
+    \/ (\E c \in Cols : CurOpen(c)) \/ (RandomElement({j \in 1..8 : calls >= 0}) = 1 /\ CurClose)
+    \/ CurSeek(RandomElement({k \in Keys : calls >= 0})) \/ CurFirst \/ CurLast
+    \/ CurNext \/ CurPrev \/ CurNext \/ CurPrev
     \/ (Len(logs) > 0 /\ LET f == RandomElement({i \in 1..Len(logs) : calls >= 0})
                               k == RandomElement({i \in 0..Len(logs[f].recs) : calls >= 0})
                           IN \E t \in BOOLEAN : CorruptTruncate(f, k, t))
